@@ -1,33 +1,60 @@
 package main
 
-// C04: operation sequences with hostile-but-valid field values are committed in generated
-// chunkings and read back: same replica (fresh read), second replica after push/pull, in-memory
-// backend. Observed: entity/operation ids vs sha-256 of the stored bytes, JSON identity of every
-// operation, order, lamport times, Validate on the reader, attached blobs, and the tree of every
-// commit written (names, order) for the Tree.v codec model.
+// C04: operation sequences with hostile field values are committed in generated chunkings and read
+// back: same replica (fresh read), second replica after push/pull, in-memory backend.
+// Observed: entity/operation ids vs sha-256 of the stored bytes, identity of every operation (JSON
+// and raw field bytes), order, lamport times, Validate on the reader, attached blobs, and the tree
+// of every commit written (names, order) for the Tree.v codec model.
+//
+// Besides the well-behaved use of the API the generator plays the uses an audit found the tree
+// unprepared for ("hazards"): text that is not valid UTF-8, operations appended without the
+// convenience functions (no create, two creates, unsafe text), authors that are not stored (never
+// committed, or changed since), attached files whose blob is missing, a second object of the same
+// bug committing in between, a repository clock that witnessed a far-ahead peer, author/committer
+// names with blanks around them under signed commits, identity metadata written after Id().
+// For these the model Accept.v says what Commit must do (refuse, or write something readable).
 
 import (
 	"bytes"
 	"crypto/sha256"
 	"encoding/json"
 	"fmt"
+	"io"
 	"os"
 	"sort"
+	"strconv"
 	"strings"
+	"unicode/utf8"
+
+	gogit "github.com/go-git/go-git/v5"
+	"github.com/go-git/go-git/v5/plumbing"
 
 	"github.com/MichaelMure/git-bug/entities/bug"
 	"github.com/MichaelMure/git-bug/entities/identity"
 	"github.com/MichaelMure/git-bug/entity"
+	"github.com/MichaelMure/git-bug/entity/dag"
 	"github.com/MichaelMure/git-bug/repository"
+	"github.com/MichaelMure/git-bug/util/lamport"
+	"github.com/MichaelMure/git-bug/util/text"
 )
 
 type c04Op struct {
-	K     string `json:"k"` // comment title status label edit meta
+	K     string `json:"k"` // comment title status label edit meta create
 	A     int    `json:"a"`
 	Txt   int    `json:"txt"`
-	Files []int  `json:"files,omitempty"`
+	Files []int  `json:"files,omitempty"` // 0-2: stored blobs; 3: well-formed hash without blob; 4: 64 hex digits, no blob
 	NMeta int    `json:"nmeta,omitempty"`
 	Cut   bool   `json:"cut,omitempty"` // commit after this operation
+	// hazards
+	Raw   bool   `json:"raw,omitempty"`   // built with the New*Op constructor and appended: nothing validates it before Commit
+	Other bool   `json:"other,omitempty"` // before this operation, another object of the bug (read from the repository) commits a comment
+	Fresh bool   `json:"fresh,omitempty"` // ... and the object in use is read again afterwards (when it has nothing staged)
+	Ahead uint64 `json:"ahead,omitempty"` // before this operation, the repository's edit clock witnesses <edit time of the bug> + ahead - 1
+}
+type c04Auth struct {
+	Name  int    `json:"name,omitempty"`  // index into c04Texts (0: default name)
+	State string `json:"state,omitempty"` // "": committed; "fresh": never committed; "mutated": committed, then changed without commit
+	Meta  int    `json:"meta,omitempty"`  // 1: SetMetadata, Id(), SetMetadata, Commit; 2: SetMetadata, Commit, SetMetadata, Commit; 3: metadata from c04Texts
 }
 type c04Input struct {
 	Backend string  `json:"backend"` // gogit | mock
@@ -36,13 +63,19 @@ type c04Input struct {
 	Files   []int   `json:"files,omitempty"`
 	NMeta   int     `json:"nmeta,omitempty"`
 	Ops     []c04Op `json:"ops"`
+	// hazards
+	NoCreate bool      `json:"nocreate,omitempty"` // the bug starts as bug.NewBug(): its first operation is whatever comes first
+	Keys     bool      `json:"keys,omitempty"`     // the authors have a key pair: commits are signed
+	GitKey   string    `json:"gitkey,omitempty"`   // author.name | committer.name | author.email | committer.email of the repository configuration ...
+	GitVal   int       `json:"gitval,omitempty"`   // ... set to c04GitVals[gitval]
+	Auth     []c04Auth `json:"auth,omitempty"`
 }
 
 type c04Driver struct{}
 
 func init() { register("C04", c04Driver{}) }
 
-// hostile-but-valid text values (index into this table; the API decides what it accepts)
+// hostile text values (index into this table; the API decides what it accepts). 0-13 are valid.
 var c04Texts = []string{
 	"plain title",
 	"  leading and trailing  ",
@@ -58,16 +91,31 @@ var c04Texts = []string{
 	"x",
 	"label-like:colon,comma;semi",
 	"",
+	// 14-: the hazards
+	"U+FFFD \ufffd itself, U+07FF \u07ff U+0800 \u0800 U+FFFF \uffff U+10000 \U00010000 U+10FFFF \U0010ffff",
+	"invalid byte \xff end",
+	"truncated \xc3\x28 sequence",
+	"overlong \xc0\xaf, surrogate \xed\xa0\x80, beyond \xf4\x90\x80\x80",
+	"cut short \xe2\x82",
+	"bell \x07 inside",
+	"DEL \x7f and C1 \u0085 controls",
+	"nul \x00 byte",
 }
 
+const c04FirstHazardText = 14
+
+var c04GitVals = []string{"", "John Doe", " John Doe", "John Doe ", "  John   Doe  ", "\tJohn Doe", "John Doe Jr.", "   ", "\"John\"", "Jöhn <Doe>"}
+
 func (c04Driver) Gen(r *Rand, tier string) []json.RawMessage {
-	n := 120
+	n := 150
 	if tier == "thorough" {
-		n = 4000
+		n = 4500
 	}
 	var res []json.RawMessage
+	valid := func() int { return r.Intn(c04FirstHazardText + 1) }
+	hazardText := func() int { return c04FirstHazardText + r.Intn(len(c04Texts)-c04FirstHazardText) }
 	for c := 0; c < n; c++ {
-		in := c04Input{Backend: "gogit", Title: r.Intn(len(c04Texts)), Msg: r.Intn(len(c04Texts)), NMeta: []int{0, 0, 1, 20}[r.Intn(4)]}
+		in := c04Input{Backend: "gogit", Title: valid(), Msg: valid(), NMeta: []int{0, 0, 1, 20}[r.Intn(4)]}
 		if c%4 == 3 {
 			in.Backend = "mock"
 		}
@@ -77,7 +125,7 @@ func (c04Driver) Gen(r *Rand, tier string) []json.RawMessage {
 		l := r.Range(0, 10)
 		kinds := []string{"comment", "comment", "title", "status", "label", "edit", "meta"}
 		for i := 0; i < l; i++ {
-			op := c04Op{K: kinds[r.Intn(len(kinds))], A: r.Intn(3), Txt: r.Intn(len(c04Texts)), Cut: r.Chance(1, 3)}
+			op := c04Op{K: kinds[r.Intn(len(kinds))], A: r.Intn(3), Txt: valid(), Cut: r.Chance(1, 3)}
 			if r.Chance(1, 3) {
 				for j, k := 0, r.Range(1, 3); j < k; j++ {
 					op.Files = append(op.Files, r.Intn(3))
@@ -87,6 +135,77 @@ func (c04Driver) Gen(r *Rand, tier string) []json.RawMessage {
 				op.NMeta = r.Range(1, 5)
 			}
 			in.Ops = append(in.Ops, op)
+		}
+		// two cases out of five play one or two hazards
+		if c%5 == 1 || c%5 == 3 {
+			if l == 0 {
+				in.Ops = append(in.Ops, c04Op{K: "comment", A: r.Intn(3), Txt: valid(), Cut: true})
+				l = 1
+			}
+			if r.Chance(1, 2) { // most hazards need a bug that is already stored
+				in.Ops[0].Cut = true
+			}
+			for h, nh := 0, r.Range(1, 2); h < nh; h++ {
+				at := r.Intn(l)
+				switch r.Intn(12) {
+				case 0: // text that cannot be stored as it is
+					switch r.Intn(4) {
+					case 0:
+						in.Title = hazardText()
+					case 1:
+						in.Msg = hazardText()
+					default:
+						in.Ops[at].Txt = hazardText()
+					}
+				case 1: // metadata that cannot be stored as they are (values, and keys, come from the text table)
+					if r.Bool() {
+						in.NMeta = len(c04Texts)
+					} else {
+						in.Ops[at].NMeta = len(c04Texts)
+					}
+				case 2:
+					in.NoCreate = true
+				case 3:
+					in.Ops[at].K, in.Ops[at].Raw = "create", true
+				case 4:
+					in.Ops[at].Raw = true
+					in.Ops[at].K = []string{"comment", "title", "create"}[r.Intn(3)]
+					if r.Bool() {
+						in.Ops[at].Txt = hazardText()
+					}
+				case 5:
+					in.Auth = make([]c04Auth, 3)
+					in.Auth[r.Intn(3)].State = []string{"fresh", "mutated"}[r.Intn(2)]
+					in.Keys = in.Keys || r.Bool()
+				case 6:
+					in.Auth = append(in.Auth, make([]c04Auth, 3-len(in.Auth))...)
+					a := &in.Auth[r.Intn(3)]
+					if r.Bool() {
+						a.Name = []int{3, 4, 1, 13, hazardText(), hazardText()}[r.Intn(6)]
+					} else {
+						a.Meta = r.Range(1, 3)
+					}
+				case 7:
+					f := 3 + r.Intn(2)
+					if r.Chance(1, 3) {
+						in.Files = append(in.Files, f)
+					} else {
+						in.Ops[at].K = []string{"comment", "edit"}[r.Intn(2)]
+						in.Ops[at].Files = append(in.Ops[at].Files, f)
+					}
+				case 8, 9:
+					in.Ops[at].Other = true
+					in.Ops[at].Fresh = r.Chance(1, 3)
+				case 10:
+					in.Ops[at].Ahead = []uint64{2, 1000, 999_999, 1_000_000, 1_000_001, 1_000_002, 1_500_000, 1 << 40}[r.Intn(8)]
+				case 11:
+					in.Keys = true
+					in.GitKey = []string{"author.name", "committer.name", "author.email", "committer.email"}[r.Intn(4)]
+					in.GitVal = r.Range(1, len(c04GitVals)-1)
+				}
+			}
+		} else if c%10 == 0 {
+			in.Keys = true // signed commits without any hazard
 		}
 		res = append(res, mustJSON(in))
 	}
@@ -142,12 +261,172 @@ func opsJSON(b *bug.Bug) []string {
 	return res
 }
 
+// ---- raw (not JSON) view of operations and identities: encoding/json hides invalid UTF-8 on both sides ----
+
+func c04Map(m map[string]string) string {
+	ks := make([]string, 0, len(m))
+	for k := range m {
+		ks = append(ks, k)
+	}
+	sort.Strings(ks)
+	var sb strings.Builder
+	for _, k := range ks {
+		fmt.Fprintf(&sb, "%q=%q;", k, m[k])
+	}
+	return sb.String()
+}
+
+// the texts an operation carries, in a fixed order (used for the pairs in-memory / read back)
+func c04OpTexts(op dag.Operation) []string {
+	switch o := op.(type) {
+	case *bug.CreateOperation:
+		return []string{o.Title, o.Message}
+	case *bug.AddCommentOperation:
+		return []string{o.Message}
+	case *bug.EditCommentOperation:
+		return []string{o.Message}
+	case *bug.SetTitleOperation:
+		return []string{o.Title, o.Was}
+	case *bug.LabelChangeOperation:
+		var res []string
+		for _, l := range o.Added {
+			res = append(res, string(l))
+		}
+		for _, l := range o.Removed {
+			res = append(res, string(l))
+		}
+		return res
+	}
+	return nil
+}
+
+func c04OpMeta(op dag.Operation) string {
+	switch o := op.(type) {
+	case *bug.CreateOperation:
+		return c04Map(o.Metadata)
+	case *bug.AddCommentOperation:
+		return c04Map(o.Metadata)
+	case *bug.EditCommentOperation:
+		return c04Map(o.Metadata)
+	case *bug.SetTitleOperation:
+		return c04Map(o.Metadata)
+	case *bug.LabelChangeOperation:
+		return c04Map(o.Metadata)
+	case *bug.SetStatusOperation:
+		return c04Map(o.Metadata)
+	case *dag.SetMetadataOperation[*bug.Snapshot]:
+		return c04Map(o.Metadata) + "new:" + c04Map(o.NewMetadata)
+	}
+	return "?"
+}
+
+func c04RawOps(b *bug.Bug) []string {
+	var res []string
+	for _, op := range b.Operations() {
+		var sb strings.Builder
+		fmt.Fprintf(&sb, "%s|%d|%d|", op.Id(), op.Type(), op.Time().Unix())
+		for _, t := range c04OpTexts(op) {
+			fmt.Fprintf(&sb, "%q,", t)
+		}
+		sb.WriteString("|" + c04OpMeta(op))
+		if wf, ok := op.(dag.OperationWithFiles); ok {
+			fmt.Fprintf(&sb, "|%v", wf.GetFiles())
+		}
+		res = append(res, sb.String())
+	}
+	return res
+}
+
+func c04Ident(i identity.Interface) string {
+	s := fmt.Sprintf("%s|%q|%q|%q|%q|%d keys", i.Id(), i.Name(), i.Email(), i.Login(), i.AvatarUrl(), len(i.Keys()))
+	if id, ok := i.(*identity.Identity); ok {
+		s += "|" + c04Map(id.ImmutableMetadata()) + "|" + c04Map(id.MutableMetadata())
+	}
+	return s
+}
+
+func c04Authors(b *bug.Bug) []string {
+	var res []string
+	for _, op := range b.Operations() {
+		res = append(res, c04Ident(op.Author()))
+	}
+	return res
+}
+
+// ---- Coq text ----
+
+// bytes of s; a text that is a short unit repeated is written (rep n unit)
+func c04Bytes(s string) string {
+	lit := func(s string) string {
+		xs := make([]string, len(s))
+		for i := 0; i < len(s); i++ {
+			xs[i] = strconv.Itoa(int(s[i]))
+		}
+		return "[" + strings.Join(xs, "; ") + "]%N"
+	}
+	if len(s) > 256 {
+		for p := 1; p <= 64; p++ {
+			if len(s)%p == 0 && s == strings.Repeat(s[:p], len(s)/p) {
+				return fmt.Sprintf("(rep %d %s)", len(s)/p, lit(s[:p]))
+			}
+		}
+	}
+	return lit(s)
+}
+
+type c04TextTab struct {
+	idx     map[string]int
+	terms   []string
+	invalid bool // a text that is not valid UTF-8 was used
+}
+
+func (t *c04TextTab) of(s string) int {
+	if i, ok := t.idx[s]; ok {
+		return i
+	}
+	if t.idx == nil {
+		t.idx = map[string]int{}
+	}
+	i := len(t.terms)
+	t.idx[s] = i
+	if !utf8.ValidString(s) {
+		t.invalid = true
+	}
+	t.terms = append(t.terms, fmt.Sprintf("mktext %s %s %s %s", c04Bytes(s), coqBool(text.Empty(s)), coqBool(text.Safe(s)), coqBool(text.SafeOneLine(s))))
+	return i
+}
+
+// one attempt to make an operation
+type c04OpAtt struct {
+	line, line0, multi, utf8 []int // texts that must be: non-empty and one-line safe / one-line safe / safe / valid UTF-8
+	predict                  bool  // the four lists are the whole rule for this operation
+	accepted                 bool  // by the convenience function, or for a raw operation by its own Validate()
+}
+
+func (a c04OpAtt) coq() string {
+	return fmt.Sprintf("mkop %s %s %s %s %s %s", coqNats(a.line), coqNats(a.line0), coqNats(a.multi), coqNats(a.utf8), coqBool(a.predict), coqBool(a.accepted))
+}
+
+func c04ShapeOK(b *bug.Bug) bool {
+	for i, op := range b.Operations() {
+		if (i == 0) != (op.Type() == bug.CreateOp) {
+			return false
+		}
+	}
+	return len(b.Operations()) > 0
+}
+
 func (c04Driver) Run(raw json.RawMessage) Case {
 	var in c04Input
 	if err := json.Unmarshal(raw, &in); err != nil {
 		return Case{Skip: "bad input"}
 	}
-	dir, err := os.MkdirTemp("", "verif-c04-")
+	// (the sandbox disk is slow for metadata: a git-bug commit costs 50-100 ms there, ~1 ms on tmpfs)
+	base := ""
+	if st, err := os.Stat("/dev/shm"); err == nil && st.IsDir() {
+		base = "/dev/shm"
+	}
+	dir, err := os.MkdirTemp(base, "verif-c04-")
 	if err != nil {
 		panic(err)
 	}
@@ -169,41 +448,6 @@ func (c04Driver) Run(raw json.RawMessage) Case {
 		_ = repoA.AddRemote("origin", remote.GetLocalRemote())
 		_ = repoB.AddRemote("origin", remote.GetLocalRemote())
 	}
-	var authors []*identity.Identity
-	for a := 0; a < 3; a++ {
-		id, err := identity.NewIdentity(repoA, fmt.Sprintf("auth%d ünï", a), fmt.Sprintf("a%d@x.org", a))
-		if err != nil {
-			panic(err)
-		}
-		if err := id.Commit(repoA); err != nil {
-			panic(err)
-		}
-		authors = append(authors, id)
-	}
-	blob := func(i int) repository.Hash {
-		h, err := repoA.StoreData([]byte(fmt.Sprintf("attached file %d \x00\x01 binary", i)))
-		if err != nil {
-			panic(err)
-		}
-		return h
-	}
-	files := func(xs []int) []repository.Hash {
-		var hs []repository.Hash
-		for _, x := range xs {
-			hs = append(hs, blob(x))
-		}
-		return hs
-	}
-	meta := func(n, salt int) map[string]string {
-		if n == 0 {
-			return nil
-		}
-		m := map[string]string{}
-		for i := 0; i < n; i++ {
-			m[fmt.Sprintf("key-%d-%d ü", salt, i)] = c04Texts[(salt+i)%len(c04Texts)]
-		}
-		return m
-	}
 	flags := map[string]bool{}
 	tags := map[string]bool{"backend:" + in.Backend: true}
 	flag := func(name string, v bool) {
@@ -213,81 +457,529 @@ func (c04Driver) Run(raw json.RawMessage) Case {
 			flags[name] = v
 		}
 	}
-	b, _, err := bug.Create(authors[0], 1600000000, c04Texts[in.Title%len(c04Texts)], c04Texts[in.Msg%len(c04Texts)], files(in.Files), meta(in.NMeta, 0))
-	if err != nil {
-		return Case{Skip: "create refused: " + err.Error(), Tags: []string{"refused"}}
-	}
-	idBefore := b.Id()
-	ncommits := 0
-	var staged int
-	commit := func() bool {
-		if !b.NeedCommit() {
-			return true
+	var tab c04TextTab
+	txt := func(i int) string { return c04Texts[((i%len(c04Texts))+len(c04Texts))%len(c04Texts)] }
+
+	// ---- configuration of the repository (names git-bug puts in the commits it writes) ----
+	gitVal := ""
+	if in.GitKey != "" && in.GitVal > 0 {
+		gitVal = c04GitVals[in.GitVal%len(c04GitVals)]
+		if err := repoA.LocalConfig().StoreString(in.GitKey, gitVal); err != nil {
+			return Case{Skip: "config: " + err.Error()}
 		}
-		if err := b.Commit(repoA); err != nil {
-			flag("commit-accepted-data", false)
-			return false
-		}
-		ncommits++
-		staged = 0
-		flag("id-stable-after-commit", b.Id() == idBefore)
-		return true
+		tags["hazard:git-ident"] = true
 	}
-	accepted := 1
-	for i, o := range in.Ops {
-		au := authors[o.A%3]
-		t := int64(1600000001 + i)
-		txt := c04Texts[o.Txt%len(c04Texts)]
-		var err error
-		switch o.K {
-		case "comment":
-			_, _, err = bug.AddComment(b, au, t, txt, files(o.Files), meta(o.NMeta, i+1))
-		case "title":
-			_, err = bug.SetTitle(b, au, t, txt, meta(o.NMeta, i+1))
-		case "status":
-			if b.Compile().Status.String() == "open" {
-				_, err = bug.Close(b, au, t, meta(o.NMeta, i+1))
-			} else {
-				_, err = bug.Open(b, au, t, meta(o.NMeta, i+1))
+
+	// ---- authors ----
+	var keys [2]*identity.Key
+	if in.Keys {
+		tags["signed"] = true
+		for i := range keys {
+			k, priv := c04Key(i)
+			keys[i] = k
+			if err := repoA.Keyring().Set(repository.Item{Key: k.Public().KeyIdString(), Data: priv}); err != nil {
+				return Case{Skip: "keyring: " + err.Error()}
 			}
-		case "label":
-			_, _, err = bug.ChangeLabels(b, au, t, []string{fmt.Sprintf("l%d", o.Txt%4), "ünï label"}, []string{fmt.Sprintf("l%d", (o.Txt+1)%4)}, meta(o.NMeta, i+1))
-		case "edit":
-			_, _, err = bug.EditCreateComment(b, au, t, txt, files(o.Files), meta(o.NMeta, i+1))
-		case "meta":
-			_, err = bug.SetMetadata(b, au, t, b.FirstOp().Id(), meta(o.NMeta+1, i+1))
 		}
+	}
+	keyList := func(i int) []*identity.Key {
+		if !in.Keys {
+			return nil
+		}
+		return []*identity.Key{keys[i].Clone()}
+	}
+	var authors []*identity.Identity
+	stored := map[entity.Id]bool{} // authors whose in-memory state is the stored one
+	for a := 0; a < 3; a++ {
+		var hz c04Auth
+		if a < len(in.Auth) {
+			hz = in.Auth[a]
+		}
+		defName := fmt.Sprintf("auth%d ünï", a)
+		email := fmt.Sprintf("a%d@x.org", a)
+		mk := func(name string, withMeta bool) (*identity.Identity, error) {
+			id, err := identity.NewIdentityFull(repoA, name, email, "", "", keyList(0))
+			if err != nil {
+				return nil, err
+			}
+			if hz.State == "fresh" {
+				return id, nil
+			}
+			if withMeta {
+				switch hz.Meta {
+				case 1:
+					id.SetMetadata("a", "1")
+					id0 := id.Id()
+					id.SetMetadata("b", "2")
+					if err := id.Commit(repoA); err != nil {
+						return nil, err
+					}
+					_, errR := identity.ReadLocal(repoA, id0)
+					flag("author:id-stable-when-committed", id.Id() == id0 && errR == nil)
+					tags["hazard:identity-metadata"] = true
+					return id, nil
+				case 2:
+					id.SetMetadata("a", "1")
+					if err := id.Commit(repoA); err != nil {
+						return nil, err
+					}
+					id.SetMetadata("a", "2")
+					id.SetMetadata("c", "3")
+					tags["hazard:identity-metadata"] = true
+				case 3:
+					for i := 0; i < len(c04Texts); i += 3 {
+						id.SetMetadata(txt(i+1), txt(i))
+					}
+					tags["hazard:identity-metadata"] = true
+				}
+			}
+			if err := id.Commit(repoA); err != nil {
+				return nil, err
+			}
+			return id, nil
+		}
+		name := defName
+		if hz.Name != 0 {
+			name = txt(hz.Name)
+			tags["hazard:identity-name"] = true
+		}
+		id, err := mk(name, true)
 		if err != nil {
-			tags["op-refused"] = true
+			// refused (a name or metadata that cannot be stored): the plain author instead
+			tags["author-refused"] = true
+			if id, err = mk(defName, false); err != nil {
+				panic(err)
+			}
+		}
+		switch hz.State {
+		case "fresh":
+			tags["hazard:author-not-stored"] = true
+		case "mutated":
+			tags["hazard:author-not-stored"] = true
+			if err := id.Mutate(repoA, func(m *identity.Mutator) {
+				m.Name = m.Name + " (changed)"
+				if in.Keys {
+					m.Keys = keyList(1)
+				}
+			}); err != nil {
+				panic(err)
+			}
+		default:
+			stored[id.Id()] = true
+		}
+		authors = append(authors, id)
+	}
+	// every stored author reads back as it is in memory
+	for _, id := range authors {
+		if !stored[id.Id()] {
 			continue
 		}
-		accepted++
-		staged++
-		tags["op:"+o.K] = true
-		if o.Cut {
-			if !commit() {
-				break
+		rl, err := identity.ReadLocal(repoA, id.Id())
+		flag("author:reads-back-identical", err == nil && c04Ident(rl) == c04Ident(id))
+	}
+
+	// ---- files ----
+	blobStored := map[repository.Hash]bool{}
+	file := func(i int) repository.Hash {
+		switch {
+		case i == 3:
+			tags["hazard:file-without-blob"] = true
+			return repository.Hash("0123456789012345678901234567890123456789")
+		case i >= 4:
+			tags["hazard:file-without-blob"] = true
+			return repository.Hash("0123456789012345678901234567890123456789012345678901234567890123")
+		}
+		h, err := repoA.StoreData([]byte(fmt.Sprintf("attached file %d \x00\x01 binary", i)))
+		if err != nil {
+			panic(err)
+		}
+		blobStored[h] = true
+		return h
+	}
+	files := func(xs []int) []repository.Hash {
+		var hs []repository.Hash
+		for _, x := range xs {
+			hs = append(hs, file(x))
+		}
+		return hs
+	}
+	meta := func(n, salt int) map[string]string {
+		if n == 0 {
+			return nil
+		}
+		m := map[string]string{}
+		for i := 0; i < n; i++ {
+			key := fmt.Sprintf("key-%d-%d ü", salt, i)
+			if n >= len(c04Texts) && i%5 == 4 {
+				key = fmt.Sprintf("%d-%s", i, txt(salt+i+1)) // hazard: keys out of the text table too
+			}
+			if n >= len(c04Texts) {
+				m[key] = txt(salt + i)
+			} else {
+				m[key] = txt((salt + i) % (c04FirstHazardText + 1))
+			}
+		}
+		return m
+	}
+	metaKV := func(m map[string]string) (keys, vals []int) {
+		ks := make([]string, 0, len(m))
+		for k := range m {
+			ks = append(ks, k)
+		}
+		sort.Strings(ks)
+		for _, k := range ks {
+			if !strings.HasPrefix(k, "key-") { // (the keys the harness writes itself are plain)
+				keys = append(keys, tab.of(k))
+			}
+			vals = append(vals, tab.of(m[k]))
+		}
+		return
+	}
+	metaIdx := func(m map[string]string) []int {
+		k, v := metaKV(m)
+		return append(k, v...)
+	}
+
+	// ---- the bug, its objects (handles), the operations ----
+	var atts []c04OpAtt          // every attempt to make an operation; its index is the operation's number
+	opNum := map[entity.Id]int{} // number of an appended operation
+	var evs []string
+	type handle struct {
+		b       *bug.Bug
+		staged  []int // numbers of the operations staged in this object
+		invalid bool  // an operation that does not pass its own Validate is staged (appended raw)
+		missing bool  // the author of a staged operation is not stored as it is, or the blob of one of its files is not
+	}
+	var hs [2]*handle
+	var wantOps, wantRaw, wantAuthors, wantIDs []string
+	var wantFiles []repository.Hash
+	var wantCreate, wantEdit lamport.Time
+	var idBefore entity.Id
+	var committed []int // numbers of the operations of accepted commits
+	ncommits := 0
+	refMoved := false // by the other object, since the main one was read or committed
+	snapshot := func(b *bug.Bug) {
+		wantOps, wantRaw, wantAuthors = opsJSON(b), c04RawOps(b), c04Authors(b)
+		wantCreate, wantEdit = b.CreateLamportTime(), b.EditLamportTime()
+		wantIDs, wantFiles = nil, nil
+		for _, op := range b.Operations() {
+			wantIDs = append(wantIDs, string(op.Id()))
+			if wf, ok := op.(dag.OperationWithFiles); ok {
+				wantFiles = append(wantFiles, wf.GetFiles()...)
 			}
 		}
 	}
-	commit()
-	if staged > 0 || ncommits == 0 {
-		return Case{Skip: "nothing committed", Tags: []string{"refused"}}
+	kindsOf := func(b *bug.Bug) string {
+		var ks []string
+		for _, op := range b.Operations() {
+			ks = append(ks, fmt.Sprintf("%d%%N", int(op.Type())))
+		}
+		return coqList(ks)
 	}
-	flag("commit-accepted-data", true)
-	want := opsJSON(b)
-	wantCreate, wantEdit := b.CreateLamportTime(), b.EditLamportTime()
+	commit := func(hi int) bool {
+		h := hs[hi]
+		if h == nil || !h.b.NeedCommit() {
+			return true
+		}
+		idNow := h.b.Id()
+		prereq := !h.missing
+		err := h.b.Commit(repoA)
+		evs = append(evs, fmt.Sprintf("ECommit %d %s %s %s %s", hi, kindsOf(h.b), coqNats(h.staged), coqBool(prereq), coqBool(err == nil)))
+		if err != nil {
+			tags["commit-refused"] = true
+			stale := hi == 0 && refMoved
+			if !h.invalid && !h.missing && !stale && c04ShapeOK(h.b) {
+				flag("commit-accepted-data", false) // what the API accepted, on a sound object, must be committable
+			}
+			return false
+		}
+		if ncommits == 0 {
+			idBefore = idNow
+		}
+		ncommits++
+		committed = append(committed, h.staged...)
+		h.staged, h.invalid, h.missing = nil, false, false
+		flag("id-stable-after-commit", h.b.Id() == idBefore)
+		snapshot(h.b)
+		if hi == 0 {
+			refMoved = false
+		} else {
+			refMoved = true
+		}
+		return true
+	}
+	// one operation through handle hi; returns false when it was not appended
+	perform := func(hi int, o c04Op, i int) bool {
+		h := hs[hi]
+		b := h.b
+		au := authors[o.A%3]
+		t := int64(1600000001 + i)
+		s := txt(o.Txt)
+		m := meta(o.NMeta, i+1)
+		att := c04OpAtt{predict: true, utf8: metaIdx(m)}
+		var err error
+		var op dag.Operation
+		setMeta := func(op interface{ SetMetadata(string, string) }) {
+			for k, v := range m {
+				op.SetMetadata(k, v)
+			}
+		}
+		fs := files(o.Files)
+		kind := o.K
+		if !o.Raw {
+			// without a create operation the convenience functions for titles crash; on an empty bug all but AddComment do
+			if b.FirstOp() == nil || ((kind == "title" || kind == "edit") && b.FirstOp().Type() != bug.CreateOp) || kind == "create" {
+				kind = "comment"
+			}
+		}
+		switch {
+		case o.Raw && kind == "create":
+			x := bug.NewCreateOp(au, t, s, txt(o.Txt+1), fs)
+			setMeta(x)
+			op, att.line, att.multi = x, []int{tab.of(s)}, []int{tab.of(txt(o.Txt + 1))}
+		case o.Raw && kind == "title":
+			x := bug.NewSetTitleOp(au, t, s, "was")
+			setMeta(x)
+			op, att.line = x, []int{tab.of(s)}
+		case o.Raw:
+			kind = "comment"
+			x := bug.NewAddCommentOp(au, t, s, fs)
+			setMeta(x)
+			op, att.multi = x, []int{tab.of(s)}
+		case kind == "comment":
+			_, op, err = bug.AddComment(b, au, t, s, fs, m)
+			att.multi = []int{tab.of(s)}
+		case kind == "title":
+			// (SetTitle records the previous title, which has to be one-line safe as well)
+			was := ""
+			if c, ok := b.FirstOp().(*bug.CreateOperation); ok {
+				was = c.Title
+			}
+			for _, x := range b.Operations() {
+				if x, ok := x.(*bug.SetTitleOperation); ok {
+					was = x.Title
+				}
+			}
+			op, err = bug.SetTitle(b, au, t, s, m)
+			att.line, att.line0 = []int{tab.of(s)}, []int{tab.of(was)}
+		case kind == "status":
+			if b.Compile().Status.String() == "open" {
+				op, err = bug.Close(b, au, t, m)
+			} else {
+				op, err = bug.Open(b, au, t, m)
+			}
+		case kind == "label":
+			add := []string{fmt.Sprintf("l%d", o.Txt%4), "ünï label"}
+			if o.Txt >= c04FirstHazardText {
+				add = append(add, s)
+			}
+			_, op, err = bug.ChangeLabels(b, au, t, add, []string{fmt.Sprintf("l%d", (o.Txt+1)%4)}, m)
+			att.predict = false
+		case kind == "edit":
+			_, op, err = bug.EditCreateComment(b, au, t, s, fs, m)
+			att.multi = []int{tab.of(s)}
+		case kind == "meta":
+			nm := meta(o.NMeta+1, i+1)
+			op, err = bug.SetMetadata(b, au, t, b.FirstOp().Id(), nm)
+			// keys must be one-line safe (may be empty), values safe
+			att.utf8 = nil
+			att.line0, att.multi = metaKV(nm)
+		}
+		if o.Raw {
+			tags["hazard:raw-operation"] = true
+			err = op.Validate()
+			b.Append(op.(bug.Operation))
+			if err != nil {
+				h.invalid = true
+			}
+			att.accepted = err == nil
+		} else {
+			att.accepted = err == nil
+		}
+		atts = append(atts, att)
+		if err != nil && !o.Raw {
+			tags["op-refused"] = true
+			return false
+		}
+		n := len(atts) - 1
+		opNum[op.Id()] = n
+		h.staged = append(h.staged, n)
+		if !stored[au.Id()] || au.NeedCommit() {
+			h.missing = true
+		}
+		for _, f := range fs {
+			if !blobStored[f] {
+				h.missing = true
+			}
+		}
+		tags["op:"+kind] = true
+		return true
+	}
+
+	// -- creation
+	if in.NoCreate {
+		tags["hazard:no-create"] = true
+		hs[0] = &handle{b: bug.NewBug()}
+		evs = append(evs, "ELoad 0")
+	} else {
+		m := meta(in.NMeta, 0)
+		title, msg := txt(in.Title), txt(in.Msg)
+		fs := files(in.Files)
+		b, op, err := bug.Create(authors[0], 1600000000, title, msg, fs, m)
+		atts = append(atts, c04OpAtt{line: []int{tab.of(title)}, multi: []int{tab.of(msg)}, utf8: metaIdx(m), predict: true, accepted: err == nil})
+		if err != nil {
+			tags["create-refused"] = true
+		} else {
+			h := &handle{b: b, staged: []int{0}}
+			opNum[op.Id()] = 0
+			if !stored[authors[0].Id()] || authors[0].NeedCommit() {
+				h.missing = true
+			}
+			for _, f := range fs {
+				if !blobStored[f] {
+					h.missing = true
+				}
+			}
+			hs[0] = h
+			evs = append(evs, "ELoad 0")
+		}
+	}
+	accepted := 0
+	refused := false
+	if hs[0] != nil {
+		accepted = len(hs[0].staged)
+		for i, o := range in.Ops {
+			if o.Ahead > 0 && ncommits > 0 {
+				// a peer's bug with a far-ahead edit time has been pulled: the clock of the repository witnessed it
+				tags["hazard:clock-ahead"] = true
+				if err := repoA.Witness("bugs-edit", hs[0].b.EditLamportTime()+lamport.Time(o.Ahead)-1); err != nil {
+					panic(err)
+				}
+			}
+			if o.Other && ncommits > 0 {
+				// another object of the same bug, read from the repository, commits a comment
+				ob, err := bug.Read(repoA, idBefore)
+				if err == nil {
+					tags["hazard:second-object"] = true
+					hs[1] = &handle{b: ob}
+					evs = append(evs, "ELoad 1")
+					if perform(1, c04Op{K: "comment", A: 0, Txt: 0}, 100+i) {
+						accepted++
+						commit(1)
+					}
+					if o.Fresh && len(hs[0].staged) == 0 {
+						if nb, err := bug.Read(repoA, idBefore); err == nil {
+							hs[0] = &handle{b: nb}
+							evs = append(evs, "ELoad 0")
+							refMoved = false
+						}
+					}
+				}
+			}
+			if !perform(0, o, i) {
+				continue
+			}
+			accepted++
+			if o.Cut {
+				if !commit(0) {
+					refused = true
+					break
+				}
+			}
+		}
+		if !refused {
+			commit(0)
+		}
+	}
+
+	// ---- Coq term parts that exist even when nothing was committed ----
+	var attTerms []string
+	for _, a := range atts {
+		attTerms = append(attTerms, a.coq())
+	}
+	finish := func(gogitTrees bool, trees []c04Tree, readable bool, read []int, pairs, names []string, obs map[string]interface{}) Case {
+		var tterms []string
+		for _, t := range trees {
+			var es []string
+			for i, n := range t.Names {
+				es = append(es, fmt.Sprintf("(%s, %s)", coqRunes(n), coqBool(t.IsTree[i])))
+			}
+			tterms = append(tterms, coqList(es))
+		}
+		var fnames []string
+		for k := range flags {
+			fnames = append(fnames, k)
+		}
+		sort.Strings(fnames)
+		var fl []string
+		failed := []string{}
+		for _, k := range fnames {
+			fl = append(fl, coqBool(flags[k]))
+			if !flags[k] {
+				failed = append(failed, k)
+				tags["flag-false:"+k] = true
+			}
+		}
+		// the recorded finding: the only thing wrong is that a (non-root) commit was stamped more than
+		// 10^6 above its parent and the bug cannot be read any more
+		if tags["obs:clock-jump"] && len(failed) > 0 {
+			only := true
+			for _, k := range failed {
+				if k != "local:readable" {
+					only = false
+				}
+			}
+			if only {
+				tags["verdict:clock-jump-only"] = true
+			}
+		}
+		term := fmt.Sprintf("mkcase4 %s %s %s %s %s %s %s %s %s %s", coqBool(gogitTrees), coqList(tterms), coqList(fl),
+			coqList(tab.terms), coqList(attTerms), coqList(evs), coqBool(readable), coqNats(read), coqList(pairs), coqList(names))
+		if tab.invalid {
+			tags["hazard:invalid-utf8"] = true
+		}
+		if ncommits > 1 {
+			tags["multi-commit"] = true
+		}
+		if len(trees) > ncommits {
+			tags["multi-author-split"] = true
+		}
+		var tg []string
+		for t := range tags {
+			tg = append(tg, t)
+		}
+		sort.Strings(tg)
+		obs["flags"], obs["failed"], obs["commits"], obs["packs"], obs["ops"] = flags, failed, ncommits, len(trees), accepted
+		return Case{Coq: term, Obs: obs, Tags: tg, NonTrivial: accepted > 1, Key: string(raw)}
+	}
+	if ncommits == 0 {
+		// nothing was committed: nothing to read back; the decisions (operations, commit) still go to the model
+		tags["nothing-committed"] = true
+		if refs, _ := repoA.ListRefs("refs/bugs/"); len(refs) > 0 {
+			tags["obs:reference-after-refused-commit"] = true // (atomicity of a failing commit is C06's subject)
+		}
+		return finish(!mock, nil, true, nil, nil, nil, map[string]interface{}{})
+	}
 
 	// ---- read back ----
+	var localRead []int
+	localReadable := false
+	var pairs []string
+	seenPair := map[string]bool{}
 	compare := func(name string, repo repository.ClockedRepo) {
 		rb, err := bug.Read(repo, idBefore)
 		if err != nil {
-			flag(name+":readable", false)
+			if name == "local" {
+				flag(name+":readable", false) // the replica cannot read what the local repository cannot
+				tags["err:"+c04ErrClass(err)] = true
+			}
 			return
 		}
 		flag(name+":readable", true)
 		got := opsJSON(rb)
-		flag(name+":same-ops", strings.Join(got, "\n") == strings.Join(want, "\n"))
+		flag(name+":same-ops", strings.Join(got, "\n") == strings.Join(wantOps, "\n"))
+		flag(name+":same-payload", strings.Join(c04RawOps(rb), "\n") == strings.Join(wantRaw, "\n"))
+		flag(name+":same-authors", strings.Join(c04Authors(rb), "\n") == strings.Join(wantAuthors, "\n"))
 		flag(name+":same-id", rb.Id() == idBefore)
 		flag(name+":validates", rb.Validate() == nil)
 		flag(name+":same-times", rb.CreateLamportTime() == wantCreate && rb.EditLamportTime() == wantEdit)
@@ -295,13 +987,66 @@ func (c04Driver) Run(raw json.RawMessage) Case {
 		found := false
 		for se := range bug.ReadAll(repo) {
 			if se.Err == nil && se.Entity.Id() == idBefore {
-				found = strings.Join(opsJSON(se.Entity), "\n") == strings.Join(want, "\n")
+				found = strings.Join(opsJSON(se.Entity), "\n") == strings.Join(wantOps, "\n")
 			}
 		}
 		flag(name+":readall", found)
+		if name == "local" {
+			localReadable = true
+			have := map[int]bool{}
+			for _, op := range rb.Operations() {
+				n, ok := opNum[op.Id()]
+				if !ok {
+					n = 9999
+				}
+				localRead = append(localRead, n)
+				have[n] = true
+			}
+			lost := false
+			for _, n := range committed {
+				if !have[n] {
+					lost = true
+				}
+			}
+			flag("local:no-committed-operation-lost", !lost)
+			// texts: in memory (the object that committed last) / read back
+			mem := map[entity.Id][]string{}
+			for _, h := range hs {
+				if h != nil {
+					for _, op := range h.b.Operations() {
+						mem[op.Id()] = c04OpTexts(op)
+					}
+				}
+			}
+			for _, op := range rb.Operations() {
+				back := c04OpTexts(op)
+				m, ok := mem[op.Id()]
+				if !ok || len(m) != len(back) {
+					continue
+				}
+				for i := range m {
+					p := fmt.Sprintf("(%d, %d)", tab.of(m[i]), tab.of(back[i]))
+					if !seenPair[p] && len(pairs) < 40 {
+						seenPair[p] = true
+						pairs = append(pairs, p)
+					}
+				}
+			}
+		}
 	}
 	compare("local", repoA)
-	if !mock {
+
+	// the content of every attached file is stored with the bug
+	committedFiles := wantFiles
+	filesStored := true
+	for _, h := range committedFiles {
+		if _, err := repoA.ReadData(h); err != nil {
+			filesStored = false
+		}
+	}
+	flag("local:files-stored", filesStored)
+
+	if !mock && localReadable && filesStored { // (a commit pointing to a missing blob makes go-git's push hang)
 		if _, err := identity.Push(repoA, "origin"); err != nil {
 			return Case{Skip: "identity push: " + err.Error()}
 		}
@@ -312,23 +1057,33 @@ func (c04Driver) Run(raw json.RawMessage) Case {
 			return Case{Skip: "identity pull: " + err.Error()}
 		}
 		resolvers := entity.Resolvers{&identity.Identity{}: identity.NewSimpleResolver(repoB)}
-		merger, _ := identity.ReadLocal(repoB, authors[0].Id())
+		var merger identity.Interface
+		for _, a := range authors {
+			if stored[a.Id()] {
+				if m, err := identity.ReadLocal(repoB, a.Id()); err == nil {
+					merger = m
+					break
+				}
+			}
+		}
+		if merger == nil {
+			return Case{Skip: "no stored author to pull with"}
+		}
 		if err := bug.Pull(repoB, resolvers, "origin", merger); err != nil {
 			flag("replica:pull-accepts", false)
 		} else {
 			flag("replica:pull-accepts", true)
+			if _, err := bug.Read(repoB, idBefore); err != nil {
+				flag("replica:readable", false)
+			}
 			compare("replica", repoB)
 			// attached files travel with the bug
 			okFiles := true
-			for _, op := range b.Operations() {
-				if wf, ok := op.(interface{ GetFiles() []repository.Hash }); ok {
-					for _, h := range wf.GetFiles() {
-						da, errA := repoA.ReadData(h)
-						db, errB := repoB.ReadData(h)
-						if errA != nil || errB != nil || !bytes.Equal(da, db) {
-							okFiles = false
-						}
-					}
+			for _, h := range committedFiles {
+				da, errA := repoA.ReadData(h)
+				db, errB := repoB.ReadData(h)
+				if errA != nil || errB != nil || !bytes.Equal(da, db) {
+					okFiles = false
 				}
 			}
 			flag("replica:files-travel", okFiles)
@@ -351,12 +1106,22 @@ func (c04Driver) Run(raw json.RawMessage) Case {
 		}
 		h = c.Parents[0]
 	}
-	for _, h := range chain {
+	var prevEdit uint64
+	for ci, h := range chain {
 		t, opsBlob, err := treeOf(repoA, h)
 		if err != nil {
 			return Case{Skip: "tree: " + err.Error()}
 		}
 		trees = append(trees, t)
+		for _, n := range t.Names {
+			if strings.HasPrefix(n, "edit-clock-") {
+				e, _ := strconv.ParseUint(strings.TrimPrefix(n, "edit-clock-"), 10, 64)
+				if ci > 0 && e > prevEdit && e-prevEdit > 1_000_000 {
+					tags["obs:clock-jump"] = true
+				}
+				prevEdit = e
+			}
+		}
 		var aux struct {
 			Ops []json.RawMessage `json:"ops"`
 		}
@@ -368,10 +1133,7 @@ func (c04Driver) Run(raw json.RawMessage) Case {
 			storedIDs = append(storedIDs, fmt.Sprintf("%x", sha256.Sum256(rawOp)))
 		}
 	}
-	var apiIDs []string
-	for _, op := range b.Operations() {
-		apiIDs = append(apiIDs, string(op.Id()))
-	}
+	apiIDs := wantIDs
 	flag("stored:op-id-is-hash-of-stored-form", strings.Join(apiIDs, ",") == strings.Join(storedIDs, ","))
 	flag("stored:entity-id-is-first-op-hash", len(storedIDs) > 0 && storedIDs[0] == string(idBefore))
 	// every file of every operation is referenced exactly once under extra/ of its commit
@@ -390,53 +1152,80 @@ func (c04Driver) Run(raw json.RawMessage) Case {
 	}
 	flag("stored:extra-names-distinct", true)
 	okRef := true
-	for _, op := range b.Operations() {
-		if wf, ok := op.(interface{ GetFiles() []repository.Hash }); ok {
-			for _, h := range wf.GetFiles() {
-				if !allExtra[string(h)] {
-					okRef = false
-				}
-			}
+	for _, h := range committedFiles {
+		// (go-git stores a 64 digit hash truncated; such a file never passes the blob check)
+		if !allExtra[string(h)] {
+			okRef = false
 		}
 	}
 	flag("stored:files-referenced", okRef)
 
-	// ---- Coq term ----
-	strT := func(s string) string { return coqRunes(s) }
-	var tterms []string
-	for _, t := range trees {
-		var es []string
-		for i, n := range t.Names {
-			es = append(es, fmt.Sprintf("(%s, %s)", strT(n), coqBool(t.IsTree[i])))
-		}
-		tterms = append(tterms, coqList(es))
-	}
-	var fnames []string
-	for k := range flags {
-		fnames = append(fnames, k)
-	}
-	sort.Strings(fnames)
-	var fl []string
-	failed := []string{}
-	for _, k := range fnames {
-		fl = append(fl, coqBool(flags[k]))
-		if !flags[k] {
-			failed = append(failed, k)
-			tags["flag-false:"+k] = true
+	// ---- the names in the commits written (go-git repository only) ----
+	var names []string
+	if !mock && gitVal != "" {
+		if got, ok := c04CommitIdent(dir+"/a", head, in.GitKey); ok {
+			names = append(names, fmt.Sprintf("(%s, %s)", coqRunes(gitVal), coqRunes(got)))
 		}
 	}
-	term := fmt.Sprintf("mkcase4 %s %s %s", coqBool(!mock), coqList(tterms), coqList(fl))
-	if ncommits > 1 {
-		tags["multi-commit"] = true
+
+	obs := map[string]interface{}{"trees": trees}
+	return finish(!mock, trees, localReadable, localRead, pairs, names, obs)
+}
+
+func c04ErrClass(err error) string {
+	s := err.Error()
+	for _, k := range []string{"lamport clock jumping", "signature failure", "identity doesn't exist", "not found"} {
+		if strings.Contains(s, k) {
+			return strings.ReplaceAll(k, " ", "-")
+		}
 	}
-	if len(trees) > ncommits {
-		tags["multi-author-split"] = true
+	return "other"
+}
+
+// the name (or address) of the author (or committer) line of a stored commit, as stored
+func c04CommitIdent(path string, h repository.Hash, key string) (string, bool) {
+	r, err := gogit.PlainOpen(path)
+	if err != nil {
+		return "", false
 	}
-	var tg []string
-	for t := range tags {
-		tg = append(tg, t)
+	obj, err := r.Storer.EncodedObject(plumbing.CommitObject, plumbing.NewHash(string(h)))
+	if err != nil {
+		return "", false
 	}
-	sort.Strings(tg)
-	obs := map[string]interface{}{"flags": flags, "failed": failed, "commits": ncommits, "packs": len(trees), "ops": accepted, "trees": trees}
-	return Case{Coq: term, Obs: obs, Tags: tg, NonTrivial: accepted > 1, Key: string(raw)}
+	rd, err := obj.Reader()
+	if err != nil {
+		return "", false
+	}
+	defer rd.Close()
+	data, err := io.ReadAll(rd)
+	if err != nil {
+		return "", false
+	}
+	who := strings.SplitN(key, ".", 2)
+	for _, l := range strings.Split(string(data), "\n") {
+		if l == "" {
+			break
+		}
+		if !strings.HasPrefix(l, who[0]+" ") {
+			continue
+		}
+		l = strings.TrimPrefix(l, who[0]+" ")
+		open, cl := strings.LastIndex(l, "<"), strings.LastIndex(l, ">")
+		if open < 0 || cl < open {
+			return "", false
+		}
+		if who[1] == "email" {
+			return l[open+1 : cl], true
+		}
+		return strings.TrimSuffix(l[:open], " "), true // "name <" : one separating space
+	}
+	return "", false
+}
+
+func c04Key(i int) (*identity.Key, []byte) {
+	var k identity.Key
+	if err := json.Unmarshal([]byte(c04KeyPairs[i][0]), &k); err != nil {
+		panic(err)
+	}
+	return &k, []byte(c04KeyPairs[i][1])
 }
